@@ -71,8 +71,16 @@ def run(ctx):
         if not quick:
             pairs += hc.combine_cases(ctx, allv, 3000, ctx.seed + 1, fam="res")
         return hc.run_family(ctx, "res", pairs, name="gen-res-pairs")
+    hdr = lambda mode: {"kind": "string", "loc": "header", "mode": mode, "rule": "none", "nest": "direct"}
+
+    def guards_run():
+        hc.expect_violations(ctx, [({"Family": '"res"', "Deviations": '{"response.header_array_joined"}'}, "MC dev response.header_array_joined")])
+        # two tagged responses, the second one selected (r2 = "abc") while the optional header attribute r1 is unset
+        hc.expect_violation_on_case(ctx, {"ra": [hdr("optional"), hdr("treq")], "rv": [hg.ABSENT, hg.V("string", 3)], "tagged": True, "tags": 2},
+                                    "response.tagged_header_unguarded")
+        return True
     guards, f1, f2 = hc.side_by_side(ctx, [
-        lambda: hc.expect_violations(ctx, [({"Family": '"res"', "Deviations": '{"response.header_array_joined"}'}, "MC dev response.header_array_joined")]),
+        guards_run,
         single, same_location])
     guards.result()
     cases, pl = f1.result()
